@@ -78,6 +78,13 @@ def shard(ctx, spec):
                            [("drop", "drop"), ("drop", "dup"), ("dup", ["delay", 0.4]), (["delay", 7.0], "drop")]):
                 s2 = dict(sc, faults={str(i): a1, str(j): a2})
                 judge(ctx, s2, O.run_scenario(s2))
+        # persistent selective loss: one segment of the window never gets through while the others do
+        # (negative acks keep coming: the retry budget must still end the transaction)
+        if nf >= 6:
+            for key in (["always:10:0:1", "always:10:0:2", "always:20:3:1", "always:20:3:2"] if not ctx.quick
+                        else ["always:10:0:1", "always:20:3:1"]):
+                s4 = dict(sc, faults={key: "drop"})
+                judge(ctx, s4, O.run_scenario(s4), label="persistent-" + key)
         # random long fault sequences ending in silence (everything from frame k on is dropped)
         for _ in range(2 if ctx.quick else 10):
             k = rng.randrange(0, nf + 3)
